@@ -118,6 +118,35 @@ fn main() {
         run_legacy(&mut sink, "legacy-honest", &parts, latest);
         run_legacy(&mut sink, "legacy-block-number-altered", &parts, BlockNumber(latest.0 + 1));
         run_legacy(&mut sink, "legacy-no-part", &[], latest);
+        // a part whose proof text does not decode, at every position, alone and next to parts that fail otherwise: the verifier
+        // handles the parts one by one, the first failing part decides the class
+        {
+            let mut variants: Vec<(&str, Vec<(Vec<String>, MP)>)> = vec![("legacy-malformed-part", parts.clone())];
+            { let mut p = parts.clone(); p[0].0.push(hex(&rng.bytes(32))); variants.push(("legacy-malformed-part-and-invalid-first", p)); }
+            { let mut p = parts.clone(); let k = p.len() - 1; p[k].1.master.root[0] ^= 1; variants.push(("legacy-malformed-part-and-invalid-last", p)); }
+            for (tag, ps) in variants {
+                for bad_at in 0..=ps.len() {
+                    if !sink.wanted() { sink.skip(); continue; }
+                    let mut msg_parts = vec![];
+                    let mut lines = vec![];
+                    for (hashes, mp) in &ps {
+                        let proof = to_proof(mp).unwrap();
+                        msg_parts.push(CardanoTransactionsSetProofMessagePart { transactions_hashes: hashes.clone(), proof: ProtocolMkProof::new(proof).to_json_hex().unwrap() });
+                        lines.push(format!("({},{})", hx(&hashes.iter().map(|x| x.clone().into_bytes()).collect::<Vec<_>>()), mp.line()));
+                    }
+                    let bad_hashes = vec![hex(&rng.bytes(32))];
+                    msg_parts.insert(bad_at, CardanoTransactionsSetProofMessagePart { transactions_hashes: bad_hashes.clone(), proof: match rng.below(3) { 0 => "invalid".to_string(), 1 => String::new(), _ => "7b7d".to_string() } });
+                    lines.insert(bad_at, format!("({},bad)", hx(&bad_hashes.iter().map(|x| x.clone().into_bytes()).collect::<Vec<_>>())));
+                    let out = match CardanoTransactionsProofsMessage::new("cert", msg_parts, vec![], latest).verify() {
+                        Ok(_) => "ok".to_string(),
+                        Err(e) => { let t = format!("{:?}", e); if t.starts_with("InvalidSetProof") { "err invalid".into() } else if t.starts_with("NoCertifiedTransaction") { "err none".into() } else if t.starts_with("NonMatchingMerkleRoot") { "err nonmatching".into() } else { "err malformed".to_string() } }
+                    };
+                    let req = format!("c11.legacy parts=[{}]", lines.join(","));
+                    let i = sink.case(tag, &req, &out);
+                    if out == "ok" { sink.sfail(i, "set-membership", "a response with an undecodable part is accepted", &req); }
+                }
+            }
+        }
         {
             // item added / renamed
             let mut p = parts.clone(); p[0].0.push(hex(&rng.bytes(32))); run_legacy(&mut sink, "legacy-item-added", &p, latest);
@@ -204,6 +233,12 @@ fn main() {
         };
         run_v2(&mut sink, "v2-honest", Some(&q), &honest_mp, latest, offset);
         run_v2(&mut sink, "v2-none", None, &honest_mp, latest, offset);
+        if sink.wanted() {
+            let part = MkSetProofMessagePart::<CardanoTransactionMessagePart> { items: vec![], proof: "00".to_string() };
+            let res = CardanoTransactionsProofsV2Message::new("cert", Some(part), vec![], latest, offset).verify();
+            let out = match &res { Ok(_) => "ok".to_string(), Err(e) => { let t = format!("{:?}", e); if t.starts_with("InvalidSetProof") { "err invalid".into() } else if t.starts_with("NoCertifiedItem") { "err none".into() } else { "err malformed".to_string() } } };
+            sink.case("v2-malformed", "c11.v2 part=([],bad)", &out);
+        } else { sink.skip(); }
         run_v2(&mut sink, "v2-offset-altered", Some(&q), &honest_mp, latest, BlockNumberOffset(offset.0 + 1));
         run_v2(&mut sink, "v2-block-number-altered", Some(&q), &honest_mp, BlockNumber(latest.0 + 1), offset);
         {
